@@ -474,6 +474,9 @@ pub struct FamCase {
     pub hand: bool,
     pub par: bool,
     pub mrhs: bool,
+    /// amplitudes and noise were scaled by 10^y_unit_exp (class label only)
+    #[serde(default)]
+    pub y_unit_exp: i8,
 }
 
 /// pool sizes 1..5, 7 and 16 chosen by the shape (pure, so that replays are reproducible)
@@ -518,7 +521,11 @@ pub fn regime_of(spec: &ModelSpec, n: usize, s: usize) -> Vec<String> {
 
 impl FamCase {
     pub fn regime(&self) -> Vec<String> {
-        regime_of(&self.spec, self.x.len(), self.c_true.len())
+        let mut v = regime_of(&self.spec, self.x.len(), self.c_true.len());
+        if self.y_unit_exp != 0 {
+            v.push(format!("y-unit=1e{}", self.y_unit_exp));
+        }
+        v
     }
     /// family instances run in a small dedicated pool whatever their flavour (the statistics are
     /// computed after the problem was converted to its sequential form, by code that may or may
@@ -764,6 +771,7 @@ pub fn family_from_raw(cfg: FamCfg, us: &[u16], seed: u64) -> FamCase {
         hand: flags & 8 == 8,
         par: flags & 16 == 16,
         mrhs,
+        y_unit_exp: 0,
     };
     // signal scale
     let clean = case.clean();
@@ -799,6 +807,43 @@ pub fn family_from_raw(cfg: FamCfg, us: &[u16], seed: u64) -> FamCase {
                 }
             }
             case.w = Some(w);
+        }
+    }
+    // 1 of 64 instances (statistics generators only): data the model reproduces exactly — all
+    // observations zero, or a constant that only the offset term carries — so that the residuals
+    // and the reduced chi2 can be exactly 0.0 (the optimizer then stops with ResidualsZero)
+    if cfg.wide_weights && u() < 1.0 / 64.0 {
+        let keep_offset = u() < 0.5;
+        for col in case.c_true.iter_mut() {
+            for (j, v) in col.iter_mut().enumerate() {
+                *v = if keep_offset && matches!(case.spec.terms[j].kind, Kind::One) { 2.0 } else { 0.0 };
+            }
+        }
+        case.sigma = vec![];
+    }
+    // units of y (10 % of the instances): amplitudes, noise and (calibrated) weights in other units —
+    // nano-amperes stored in amperes or counts of 1e12. The fit and every relative statistic are
+    // invariant; quantities that carry the unit of the data (coefficients, variances, chi2 for
+    // uncalibrated weights) move by up to 1e±18 past any absolute threshold.
+    if cfg.units && u() < 0.10 {
+        let exps: &[i32] = if case.f32 { &[-8, -4, 4, 8] } else { &[-18, -12, -8, -4, 4, 8, 12, 18] };
+        let e = exps[(u() * exps.len() as f64) as usize % exps.len()];
+        let f = 10f64.powi(e);
+        case.y_unit_exp = e as i8;
+        for col in case.c_true.iter_mut() {
+            for v in col.iter_mut() {
+                *v *= f;
+            }
+        }
+        for v in case.sigma.iter_mut() {
+            *v *= f;
+        }
+        if cfg.calibrated_weights {
+            if let Some(w) = case.w.as_mut() {
+                for v in w.iter_mut() {
+                    *v /= f;
+                }
+            }
         }
     }
     // units of x (see ModelSpec::unit_exp): drawn last so that the instances are otherwise
